@@ -9,3 +9,5 @@ import Dashu.Props.C11Powi
 #print axioms Dashu.Props.C11Powi.powi_model_reproduces
 #print axioms Dashu.Props.C11Powi.powi_directed_counterexample
 #print axioms Dashu.Props.C11Powi.unit_base_zpow_reduce
+#print axioms Dashu.Props.C11Powi.unlimited_step_exact
+#print axioms Dashu.Props.C11Powi.powi_unlimited_exact
